@@ -22,7 +22,7 @@ from superrec2.model.tree_mapping import get_species_mapping
 from superrec2.utils.trees import LowestCommonAncestor
 
 from harness import common, gen, stubtex
-from harness.checks import c12_cli
+from harness.checks import c12_bridge, c12_cli
 
 ID = "C12"
 NOTES = {}  # observations that are not violations of the property (counted into the distribution)
@@ -66,6 +66,10 @@ ASSUMPTIONS = [
     "ordered algorithms on inconsistent leaf orders may have no solution: status 1, nothing written",
 ]
 OPEN = list(c12_cli.OPEN_CLI)
+TRUSTED = TRUSTED + list(c12_bridge.TRUSTED_BRIDGE)
+RULE = RULE + " Bridge ties:" + c12_bridge.RULE_BRIDGE
+BRIDGE_NOTE = ("the embedding and the evaluator of Model/SolOutput.lean (the objects of Properties/C12Bridge.lean) are tied to "
+               "the real to_dict() / from_dict(d).cost() by harness/checks/c12_bridge.py (driver ops c12b_emb, c12b_eval)")
 
 ALGOS = ["exh", "lca", "thl", "base_spfs", "ext_spfs", "base_uspfs", "superdtl"]
 SUPER = {"base_spfs", "ext_spfs", "base_uspfs", "superdtl"}
@@ -736,6 +740,8 @@ def run(ctx, res):
     tie(ctx, res, reqs)
     # CLI glue model (eval_cost grammar, read_input, dump_results, reconcile/draw status logic)
     c12_cli.run_cli(ctx, res)
+    # bridge model (Model/SolOutput.lean): embedding of solver solutions into to_dict(), evaluator on dictionaries
+    c12_bridge.run_bridge(ctx, res)
     for k, v in NOTES.items():
         res.dist[k] += v
     NOTES.clear()
@@ -794,6 +800,8 @@ def replay(ctx, data):
     case = data["input"]
     stubtex.install()
     common.quiet_tqdm()
+    if "bridge" in case:
+        return c12_bridge.replay_bridge(ctx, data)
     if "subprocess" in case:
         res = common.Result()
         with tempfile.TemporaryDirectory(prefix="c12_") as tmp:
